@@ -18,7 +18,7 @@ RtFails(ln) ==
 (* C04: whatever was changed, the outcome is an error, a network attempt or the original plaintext; *)
 (* the field-class prediction of Blob!Outcome is compared only as drift                             *)
 TamperFails(ln) == IF ln.res = "plain_different" THEN {"modified_blob_decrypted_to_different_plaintext"} ELSE {}
-TamperDrift(ln) == ln.res \notin ln.allowed
+TamperDrift(ln) == \A i \in 1 .. Len(ln.allowed) : ln.allowed[i] # ln.res
 
 (* C19: fold NoReuse over a history of protect events with interned values                          *)
 FreshFails(ln) ==
